@@ -515,6 +515,10 @@ class TensorEval:
             if isinstance(v_, (Q, EnumMember)) or (isinstance(v_, np.ndarray) and v_.dtype == object):
                 raise Unknown('isinstance of a symbolic value')
             return isinstance(v_, tuple(types))
+        if not self.numeric and np_call and name == 'where' and len(e.args) == 3 and isinstance(e.args[0], ast.Compare):
+            v2 = self.ev(f, e.args[2], env)
+            if isinstance(v2, np.ndarray) and v2.dtype == object or isinstance(v2, Q):
+                return v2                # repair of degenerate (zero / non-finite) cells: symbolic cells are generic, the mask is empty
         args = [self.ev(f, a, env) for a in e.args]
         if isinstance(fn, ast.Name) and isinstance(env.get(fn.id), FnVal) and self.depth < 4:
             g = env[fn.id].func
